@@ -20,6 +20,7 @@ from fractions import Fraction
 from typing import Dict, List, Optional
 
 from engines import asyncfacts as af
+from engines import inline
 from engines import pyfacts as pf
 from engines.common import AnalysisError, Ctx
 
@@ -64,6 +65,11 @@ def run(ctx: Ctx) -> None:
     m = pf.load(F)
     ctx.unit('files')
     cls = m.cls(CLS)
+    # __aenter__ is analysed with its same-class helpers inlined (an extracted `_expire(now)` is seen through)
+    m0 = m
+    m, il = inline.inline_methods(m0, CLS, '__aenter__', exclude=('__init__', '__aexit__'))
+    cls = m.cls(CLS)
+    ctx.unit('helpers_inlined', len(il.inlined))
     fn = af.method(m, cls, '__aenter__')
     ctx.need(isinstance(fn, ast.AsyncFunctionDef), '__aenter__ is not a coroutine')
     cfg = pf.cfg(fn)
@@ -103,18 +109,17 @@ def run(ctx: Ctx) -> None:
         raise AnalysisError(f'{q}: timestamp read inline at the append (idiom not analysed)')
     now = arg.id
     ndefs = pf.assignments(fn).get(now, [])
-    ctx.need(len(ndefs) == 1 and isinstance(ndefs[0], ast.Call), f'{q}: `{now}` does not have a single defining call')
-    clock = pf.dotted(ndefs[0].func)
-    ctx.check(clock in CLOCKS and not ndefs[0].args, 'R2', cons + '::clock', f'the recorded timestamp `{now}` is `{pf.nsrc(ndefs[0])}`, not a clock read',
-              m.path, A.lineno)
-    Ns = af.stmt_nodes(cfg, lambda n: n.kind == 'stmt' and isinstance(n.ast, ast.Assign) and n.ast.value is ndefs[0])
-    ctx.need(len(Ns) == 1, f'{q}: clock read statement not found')
-    N = Ns[0]
-    dom = cfg.dominated_by(A, lambda n: n is N)
-    mid = af.between(cfg, N, A) if dom else []
-    stale = [x for x in mid if pf.node_has_await(x)]
+    ctx.need(len(ndefs) >= 1 and all(isinstance(d, ast.Call) for d in ndefs), f'{q}: `{now}` is not defined by calls only')
+    for d in ndefs:
+        ctx.check(pf.dotted(d.func) in CLOCKS and not d.args, 'R2', cons + '::clock', f'the recorded timestamp `{now}` is `{pf.nsrc(d)}`, not a clock read',
+                  m.path, A.lineno)
+    Ns = af.stmt_nodes(cfg, lambda n: n.kind == 'stmt' and isinstance(n.ast, ast.Assign) and any(n.ast.value is d for d in ndefs))
+    ctx.need(len(Ns) == len(ndefs), f'{q}: clock read statement not found')
+    dom = cfg.dominated_by(A, lambda n: n in Ns)
+    # a suspension from which the append is reachable without a fresh clock read makes the recorded time stale
+    stale = [x for x in cfg.nodes if pf.node_has_await(x) and x is not A and cfg.path_avoiding(x, lambda n: n is A, lambda n: n in Ns) is not None] if dom else []
     ctx.check(dom and not stale, 'R2', cons + '::fresh',
-              (f'`{stale[0].text()}` suspends between `{N.text()}` and the append: the entry is recorded with a time older than its admission, leaves the '
+              (f'`{stale[0].text()}` suspends between the clock read and the append: the entry is recorded with a time older than its admission, leaves the '
                f'window early, and more than {COUNT} entries fall into one window') if stale else f'`{now}` is not read on every path to the append',
               m.path, A.lineno)
 
@@ -161,6 +166,8 @@ def run(ctx: Ctx) -> None:
     # nothing re-admits: the append is not inside a cycle that avoids the guard
     ctx.check(not af.direct(cfg, A, A), 'R1', f'{F}::{q}::single admission', 'one call of __aenter__ can record more than one entry', m.path, A.lineno)
 
+    ctx.need(len(Ns) == 1, f'{q}: `{now}` is read from the clock at {len(Ns)} places (R3/R4 position rules are written for one read per iteration)')
+    N = Ns[0]
     # ---- R3 eviction loop ---------------------------------------------------------------
     loops = [n for n in pf.walk_shallow(fn) if isinstance(n, ast.While) and af.mentions(n.test, f'{ITEMS}[0]')]
     consE = f'{F}::{q}::eviction loop'
